@@ -33,31 +33,31 @@ Proof.
 Qed.
 
 (* what a handler call can do to the server state and to the ControlConnection *)
-Inductive auth_result (s : srv) (c : cc) (a : N) (m : hs) : srv -> cc -> aresp -> Prop :=
+Inductive auth_result (keep : bool) (s : srv) (c : cc) (a : N) (m : hs) : srv -> cc -> aresp -> Prop :=
 | AR_gated : black s a = true \/ banned s a = true \/ (h_cid m = 0 /\ rl_deny s = true) ->
-    auth_result s c a m s c AFail
+    auth_result keep s c a m s c AFail
 | AR_new : black s a = false -> banned s a = false -> h_cid m = 0 -> rl_deny s = false -> h_new m = true ->
-    auth_result s c a m (clear_fails (register s) a)
+    auth_result keep s c a m (first_state keep s a)
       {| authed := true; ccid := next_id s; pending := pending c |} (ASuccessNew (next_id s))
 | AR_unknown : black s a = false -> banned s a = false -> clients s (h_cid m) = None ->
-    auth_result s c a m (record_failure s a) c AFail
+    auth_result keep s c a m (record_failure s a) c AFail
 | AR_expired : forall cl, black s a = false -> banned s a = false -> clients s (h_cid m) = Some cl -> expired cl = true ->
-    auth_result s c a m s c AFail
+    auth_result keep s c a m s c AFail
 | AR_phase1 : forall cl, black s a = false -> banned s a = false -> clients s (h_cid m) = Some cl -> expired cl = false ->
     h_resp m = None ->
-    auth_result s c a m (bump_nonce s) {| authed := authed c; ccid := ccid c; pending := Some (next_nonce s) |}
+    auth_result keep s c a m (bump_nonce s) {| authed := authed c; ccid := ccid c; pending := Some (next_nonce s) |}
       (AChallenge (next_nonce s))
 | AR_nochal : forall cl r, black s a = false -> banned s a = false -> clients s (h_cid m) = Some cl -> expired cl = false ->
     h_resp m = Some r -> pending c = None ->
-    auth_result s c a m (record_failure s a) c AFail
+    auth_result keep s c a m (record_failure s a) c AFail
 | AR_ok : forall cl ch, black s a = false -> banned s a = false -> clients s (h_cid m) = Some cl -> expired cl = false ->
     h_resp m = Some (hmac (secret cl) ch) -> pending c = Some ch ->
-    auth_result s c a m (clear_fails s a) {| authed := true; ccid := h_cid m; pending := None |} ASuccess
+    auth_result keep s c a m (clear_fails s a) {| authed := true; ccid := h_cid m; pending := None |} ASuccess
 | AR_bad : forall cl ch r, black s a = false -> banned s a = false -> clients s (h_cid m) = Some cl -> expired cl = false ->
     h_resp m = Some r -> pending c = Some ch -> r <> hmac (secret cl) ch ->
-    auth_result s c a m (record_failure s a) {| authed := authed c; ccid := ccid c; pending := None |} AFail.
+    auth_result keep s c a m (record_failure s a) {| authed := authed c; ccid := ccid c; pending := None |} AFail.
 
-Lemma auth_cases s c a m : let '(s1, c1, ar) := auth s c a m in auth_result s c a m s1 c1 ar.
+Lemma auth_cases keep s c a m : let '(s1, c1, ar) := auth keep s c a m in auth_result keep s c a m s1 c1 ar.
 Proof.
   unfold Auth.auth.
   destruct (black s a) eqn:Hb; [apply AR_gated; auto|].
@@ -78,14 +78,15 @@ Proof.
     destruct (N.eqb_spec r (hmac (secret cl) ch)) as [->|Hne]; [eapply AR_ok; eauto|eapply AR_bad; eauto].
 Qed.
 
-Lemma auth_result_frame s c a m s1 c1 ar : auth_result s c a m s1 c1 ar ->
+Lemma auth_result_frame keep s c a m s1 c1 ar : auth_result keep s c a m s1 c1 ar ->
   conns s1 = conns s /\ index s1 = index s.
 Proof.
   intro H; destruct H; cbn; try (split; reflexivity);
+    try (unfold first_state; destruct keep; split; reflexivity);
     destruct (rf_frame s a) as (Hc & Hi & _); split; assumption.
 Qed.
 
-Lemma auth_result_nonsuccess s c a m s1 c1 ar : auth_result s c a m s1 c1 ar -> is_success ar = false ->
+Lemma auth_result_nonsuccess keep s c a m s1 c1 ar : auth_result keep s c a m s1 c1 ar -> is_success ar = false ->
   authed c1 = authed c /\ ccid c1 = ccid c /\ clients s1 = clients s /\ next_id s1 = next_id s.
 Proof.
   intros H Hs; destruct H; cbn in *; try discriminate; repeat split; try reflexivity;
@@ -183,7 +184,7 @@ Definition install_cond (v : variant) (h : hs) (c1 : cc) (ar : aresp) : bool :=
 Lemma handle_shape v s k h cn :
   conns s k = Some cn ->
   let c0 := match c_cc cn with Some c => c | None => new_cc end in
-  forall s1 c1 ar, auth s c0 (c_addr cn) h = (s1, c1, ar) ->
+  forall s1 c1 ar, auth (v_first_keeps v) s c0 (c_addr cn) h = (s1, c1, ar) ->
   let s3 := post_auth s1 k cn c1 in
   fst (handle v s k (Some h)) = s3 \/
   (fst (handle v s k (Some h)) = install s3 k cn c1 /\ install_cond v h c1 ar = true /\ c_open cn = true /\ ar <> AFail).
@@ -296,19 +297,19 @@ Proof.
   eapply authed_as_ext; [|exact Ha]. rewrite Hc. reflexivity.
 Qed.
 
-Lemma auth_result_fresh s c a m s1 c1 ar : auth_result s c a m s1 c1 ar -> fresh s -> fresh s1.
+Lemma auth_result_fresh keep s c a m s1 c1 ar : auth_result keep s c a m s1 c1 ar -> fresh s -> fresh s1.
 Proof.
   intros H Hf; destruct H; try assumption;
     try (intros x Hx; destruct (rf_frame s a) as (_ & _ & Hcl & Hn & _); rewrite Hcl; apply Hf; rewrite Hn in Hx; assumption).
-  - intros x Hx. cbn in *. rewrite upd_other by lia. apply Hf. lia.
+  - intros x Hx. unfold first_state in *. destruct keep; cbn in *; rewrite upd_other by lia; apply Hf; lia.
 Qed.
 
-Lemma handle_post_auth_inv s k cn h s1 c1 ar :
+Lemma handle_post_auth_inv keep s k cn h s1 c1 ar :
   idx_inv s -> conns s k = Some cn ->
-  auth_result s (match c_cc cn with Some c => c | None => new_cc end) (c_addr cn) h s1 c1 ar ->
+  auth_result keep s (match c_cc cn with Some c => c | None => new_cc end) (c_addr cn) h s1 c1 ar ->
   idx_inv (post_auth s1 k cn c1).
 Proof.
-  intros Hinv Hc Har. destruct (auth_result_frame _ _ _ _ _ _ _ Har) as [Hcs His].
+  intros Hinv Hc Har. destruct (auth_result_frame _ _ _ _ _ _ _ _ Har) as [Hcs His].
   apply post_auth_idx_inv.
   - intros x j Hx Hn. rewrite His in Hx. destruct (Hinv _ _ Hx) as [Ha Hp]. split; [|assumption].
     eapply authed_as_ext; [|exact Ha]. rewrite Hcs. reflexivity.
@@ -320,10 +321,10 @@ Proof.
   intros [Hf Hinv]. destruct m as [h|]; [|exact (conj Hf Hinv)].
   destruct (conns s k) as [cn|] eqn:Hc; [|unfold Auth.handle; rewrite Hc; exact (conj Hf Hinv)].
   set (c0 := match c_cc cn with Some c => c | None => new_cc end).
-  destruct (auth s c0 (c_addr cn) h) as [[s1 c1] ar] eqn:Ha.
-  pose proof (auth_cases s c0 (c_addr cn) h) as Har. rewrite Ha in Har.
-  pose proof (handle_post_auth_inv _ _ _ _ _ _ _ Hinv Hc Har) as H3.
-  pose proof (auth_result_fresh _ _ _ _ _ _ _ Har Hf) as Hf1.
+  destruct (auth (v_first_keeps v) s c0 (c_addr cn) h) as [[s1 c1] ar] eqn:Ha.
+  pose proof (auth_cases (v_first_keeps v) s c0 (c_addr cn) h) as Har. rewrite Ha in Har.
+  pose proof (handle_post_auth_inv _ _ _ _ _ _ _ _ Hinv Hc Har) as H3.
+  pose proof (auth_result_fresh _ _ _ _ _ _ _ _ Har Hf) as Hf1.
   destruct (handle_shape v s k h cn Hc s1 c1 ar Ha) as [He|(He & Hcond & _ & _)]; rewrite He.
   - split; [exact Hf1|exact H3].
   - unfold install_cond in Hcond.
@@ -417,9 +418,9 @@ Proof.
   intros [Hf Hinv] Ha. destruct m as [h|]; [|left; exact Ha].
   destruct (conns s k0) as [cn|] eqn:Hc; [|unfold Auth.handle in Ha; rewrite Hc in Ha; left; exact Ha].
   set (c0 := match c_cc cn with Some c => c | None => new_cc end).
-  destruct (auth s c0 (c_addr cn) h) as [[s1 c1] ar] eqn:Hau.
-  pose proof (auth_cases s c0 (c_addr cn) h) as Har. rewrite Hau in Har.
-  destruct (auth_result_frame _ _ _ _ _ _ _ Har) as [Hcs His].
+  destruct (auth (v_first_keeps v) s c0 (c_addr cn) h) as [[s1 c1] ar] eqn:Hau.
+  pose proof (auth_cases (v_first_keeps v) s c0 (c_addr cn) h) as Har. rewrite Hau in Har.
+  destruct (auth_result_frame _ _ _ _ _ _ _ _ Har) as [Hcs His].
   assert (Ha3 : authed_as (post_auth s1 k0 cn c1) k x).
   { destruct (handle_shape v s k0 h cn Hc s1 c1 ar Hau) as [He|(He & Hcond & _ & _)]; rewrite He in Ha; [exact Ha|].
     unfold install_cond in Hcond.
@@ -435,7 +436,7 @@ Proof.
       * split; [assumption|]. split; [assumption|]. right. cbn in Hid. split; [exact Hid|]. subst x.
         exists cl, ch. split; [assumption|]. split; [assumption|]. split; [|assumption].
         unfold pending_of. rewrite Hc. unfold c0 in *. destruct (c_cc cn) as [c|]; [assumption|discriminate].
-    + left. destruct (auth_result_nonsuccess _ _ _ _ _ _ _ Har Hs) as (E1 & E2 & _).
+    + left. destruct (auth_result_nonsuccess _ _ _ _ _ _ _ _ Har Hs) as (E1 & E2 & _).
       rewrite E1 in Hau1. rewrite E2 in Hid. unfold c0 in *.
       destruct (c_cc cn) as [c|] eqn:Hcc; [|discriminate]. exists cn, c. auto.
   - left. apply post_auth_authed_other in Ha3; [|assumption].
@@ -509,7 +510,7 @@ Proof. repeat split; auto. Qed.
 
 Lemma handle_out_auth v s k h cn :
   conns s k = Some cn ->
-  forall s1 c1 ar, auth s (match c_cc cn with Some c => c | None => new_cc end) (c_addr cn) h = (s1, c1, ar) ->
+  forall s1 c1 ar, auth (v_first_keeps v) s (match c_cc cn with Some c => c | None => new_cc end) (c_addr cn) h = (s1, c1, ar) ->
   o_auth (snd (handle v s k (Some h))) = Some ar.
 Proof.
   intros Hc s1 c1 ar Ha. unfold Auth.handle. rewrite Hc, Ha.
@@ -524,11 +525,11 @@ Proof.
   intros [Hf Hinv] Hns. destruct m as [h|]; [|apply inert_refl].
   destruct (conns s k) as [cn|] eqn:Hc; [|unfold Auth.handle; rewrite Hc; apply inert_refl].
   set (c0 := match c_cc cn with Some c => c | None => new_cc end).
-  destruct (auth s c0 (c_addr cn) h) as [[s1 c1] ar] eqn:Hau.
-  pose proof (auth_cases s c0 (c_addr cn) h) as Har. rewrite Hau in Har.
+  destruct (auth (v_first_keeps current_variant) s c0 (c_addr cn) h) as [[s1 c1] ar] eqn:Hau.
+  pose proof (auth_cases (v_first_keeps current_variant) s c0 (c_addr cn) h) as Har. rewrite Hau in Har.
   unfold not_success in Hns. rewrite (handle_out_auth _ _ _ _ _ Hc _ _ _ Hau) in Hns.
-  destruct (auth_result_frame _ _ _ _ _ _ _ Har) as [Hcs His].
-  destruct (auth_result_nonsuccess _ _ _ _ _ _ _ Har Hns) as (E1 & E2 & E3 & _).
+  destruct (auth_result_frame _ _ _ _ _ _ _ _ Har) as [Hcs His].
+  destruct (auth_result_nonsuccess _ _ _ _ _ _ _ _ Har Hns) as (E1 & E2 & E3 & _).
   destruct (handle_shape current_variant s k h cn Hc s1 c1 ar Hau) as [He|(_ & Hcond & _ & _)].
   2:{ unfold install_cond in Hcond. cbn [v_success_gate current_variant negb orb] in Hcond.
       rewrite Hns in Hcond. rewrite andb_false_r in Hcond. discriminate. }
@@ -555,7 +556,7 @@ Theorem gated v s k h cn :
 Proof.
   intros [Hf Hinv] Hc Hg.
   set (c0 := match c_cc cn with Some c => c | None => new_cc end).
-  assert (Hau : auth s c0 (c_addr cn) h = (s, c0, AFail)).
+  assert (Hau : auth (v_first_keeps v) s c0 (c_addr cn) h = (s, c0, AFail)).
   { unfold Auth.auth. destruct Hg as [Hg|Hg]; rewrite Hg; [reflexivity|]. destruct (black s (c_addr cn)); reflexivity. }
   split; [apply (handle_out_auth v s k h cn Hc _ _ _ Hau)|].
   destruct (handle_shape v s k h cn Hc s c0 AFail Hau) as [He|(_ & _ & _ & Hne)]; [|contradiction].
